@@ -88,17 +88,8 @@ def Env.setObj (e : Env) (k : String) (v : Obj) : Env := (k, v) :: e.filter (·.
 /-- bind a register to a *new* object (fresh identity, empty caches) -/
 def Env.set (e : Env) (k : String) (v : St) : Env := e.setObj k (Obj.fresh v)
 
-inductive Operand | st (f : St) | sc (c : Val)
-
-def getOperand (e : Env) (tok : String) : Option Operand :=
+def getOperand (e : Env) (tok : String) : Option (Operand Rat) :=
   if tok.startsWith "#" then (parseVal (tok.drop 1).toString).map .sc else (e.get tok).map .st
-
-/-- `_sanitize_binary_operands`: a scalar becomes a step-free function with the other operand's side -/
-def sanitize : Operand → Operand → Option (St × St)
-  | .st f, .st g => some (f, g)
-  | .st f, .sc c => some (f, Stairs.const c f.closed)
-  | .sc c, .st g => some (Stairs.const c g.closed, g)
-  | .sc _, .sc _ => none
 
 def assign (e : Env) (r : String) (x : Except Err St) : Env × String :=
   match x with
